@@ -377,8 +377,8 @@ func (g *gen) inject(pos token.Pos, name string, sig *types.Signature, set *Prov
 
 // injectorCallErrors reports the calls an injector with signature injectSig
 // in package pkgPath cannot make: providers returning a cleanup or an error
-// the injector does not return, and values that are not accessible from the
-// injector's package.
+// the injector does not return, and values, provider functions, struct types
+// or fields that are not accessible from the injector's package.
 func injectorCallErrors(pos token.Position, name string, calls []call, injectSig outputSignature, pkgPath string) []error {
 	var errs []error
 	for i := range calls {
@@ -399,6 +399,18 @@ func injectorCallErrors(pos token.Position, name string, calls []call, injectSig
 				ts := types.TypeString(c.out, nil)
 				errs = append(errs, notePosition(pos,
 					fmt.Errorf("inject %s: value %s can't be used: %v", name, ts, err)))
+			}
+		} else if c.pkg != nil && c.pkg.Path() != pkgPath {
+			// The generated code names the provider function, the struct type
+			// and its fields, or the selected field from the injector's package.
+			idents := append([]string{c.name}, c.fieldNames...)
+			for _, id := range idents {
+				if !ast.IsExported(id) {
+					ts := types.TypeString(c.out, nil)
+					errs = append(errs, notePosition(pos,
+						fmt.Errorf("inject %s: provider for %s can't be used: uses unexported identifier %s", name, ts, id)))
+					break
+				}
 			}
 		}
 	}
